@@ -189,7 +189,8 @@ def _sgr_table():
     t[7] = (G_SWAP, K_APPLY)
     t[8] = (G_HIDE, K_APPLY)
     t[9] = (G_STRIKE, K_APPLY)
-    for c in range(10, 21):
+    t[10] = (G_FONT, K_CLEAR)   # primary (default) font: switches the alternative font off
+    for c in range(11, 21):
         t[c] = (G_FONT, K_APPLY)
     t[21] = (G_UNDERLINE, K_APPLY)
     t[22] = (G_BOLD, K_CLEAR)
@@ -292,3 +293,157 @@ def eq_table(f, g):
 def eq_value(v, w):
     """two independently built values are equal: same text, equal tables (settings by text)"""
     return v._s == w._s and eq_table(v._fmts, w._fmts)
+
+
+# ---------------------------------------------------------------------------------------------
+# The conforming SGR terminal (DESIGN.md section 3: term_groups, sgr_step, eff, display).
+# A terminal state is a list of 15 entries indexed by effect group (entry 0 unused); an entry is the 5-tuple of the
+# parameters that set the effect, e.g. (1,-1,-1,-1,-1) for bold, (38,5,214,-1,-1), (48,2,r,g,b), or TERM_OFF.
+TERM_OFF = (-1, -1, -1, -1, -1)
+N_GROUPS = 15
+
+
+def term_default():
+    return [TERM_OFF] * N_GROUPS
+
+
+def state_set(st, g, val):
+    """a copy of the state with entry g replaced (engine twin: pyvc.terminal.twin_state_set, no fork on g)"""
+    st2 = list(st)
+    st2[g] = val
+    return st2
+
+
+def term_apply(state, codes):
+    """the state a terminal reaches after one SGR sequence with these integer parameters (an empty parameter counts
+    as 0).  Extended-colour groups 38/48/58 ; 5 ; n  and  38/48/58 ; 2 ; r ; g ; b are consumed as a whole wherever they
+    occur; a 38/48/58 that does not start a complete group, and every unknown code, contribute nothing."""
+    st = state
+    n = len(codes)
+    if n == 0:
+        return term_default()
+    i = 0
+    while i < n:
+        c = codes[i]
+        if c == 38 or c == 48 or c == 58:
+            if i + 2 < n and codes[i + 1] == 5:
+                st = state_set(st, sgr_group(c), (c, 5, codes[i + 2], -1, -1))
+                i += 3
+            elif i + 4 < n and codes[i + 1] == 2:
+                st = state_set(st, sgr_group(c), (c, 2, codes[i + 2], codes[i + 3], codes[i + 4]))
+                i += 5
+            else:
+                i += 1
+        else:
+            k = sgr_kind(c)
+            if k == K_RESET:
+                st = term_default()
+            elif k == K_APPLY:
+                st = state_set(st, sgr_group(c), (c, -1, -1, -1, -1))
+            elif k == K_CLEAR:
+                st = state_set(st, sgr_group(c), TERM_OFF)
+            i += 1
+    return st
+
+
+def codes_of_text(t):
+    """integer parameters of a setting text: ';'-separated, blanks ignored, an empty parameter is 0, a parameter that
+    is not a number is dropped (a terminal ignores what it cannot read)"""
+    out = []
+    for part in t.split(';'):
+        p = part.strip()
+        if p == '':
+            out.append(0)
+        else:
+            try:
+                out.append(int(p))
+            except ValueError:
+                pass
+    return out
+
+
+def eff_state(settings):
+    """the effective style of a character: its settings applied in order, later ones overriding earlier ones of the
+    same effect"""
+    st = term_default()
+    for s in settings:
+        st = term_apply(st, codes_of_text(str(s)))
+    return st
+
+
+def _scan_output(out):
+    """native terminal reading of a rendered string: list of items ('text', str) / ('sgr', [codes]) / ('other', str)"""
+    items = []
+    i = 0
+    n = len(out)
+    cur = ''
+    while i < n:
+        if out[i] == '\x1b' and i + 1 < n and out[i + 1] == '[':
+            j = i + 2
+            while j < n and not (0x40 <= ord(out[j]) <= 0x7e):
+                j += 1
+            if j >= n:
+                cur += out[i:]
+                break
+            if cur:
+                items.append(('text', cur))
+                cur = ''
+            body = out[i + 2:j]
+            if out[j] == 'm':
+                codes = []
+                if body != '':
+                    for part in body.split(';'):
+                        p = part.strip()
+                        if p == '':
+                            codes.append(0)
+                        else:
+                            try:
+                                codes.append(int(p))
+                            except ValueError:
+                                pass
+                items.append(('sgr', codes))
+            else:
+                items.append(('other', out[i:j + 1]))
+            i = j + 1
+        else:
+            cur += out[i]
+            i += 1
+    if cur:
+        items.append(('text', cur))
+    return items
+
+
+def disp_text(out):
+    """the characters a terminal prints for this output (everything that is not an SGR sequence)"""
+    return ''.join(x[1] for x in _scan_output(out) if x[0] != 'sgr')
+
+
+def disp_state_at(out, t0, k):
+    """terminal state in force when the k-th printed character is printed (engine twin: pyvc.terminal)"""
+    st = t0
+    pos = 0
+    for kind, val in _scan_output(out):
+        if kind == 'sgr':
+            st = term_apply(st, val)
+        else:
+            if k < pos + len(val):
+                return st
+            pos += len(val)
+    return st
+
+
+def disp_final(out, t0):
+    st = t0
+    for kind, val in _scan_output(out):
+        if kind == 'sgr':
+            st = term_apply(st, val)
+    return st
+
+
+def disp_nseq(out):
+    return len([1 for x in _scan_output(out) if x[0] == 'sgr'])
+
+
+def disp_starts_with_reset(out):
+    items = _scan_output(out)
+    return len(items) > 0 and items[0][0] == 'sgr' and (len(items[0][1]) == 0 or items[0][1][0] == 0)
